@@ -1,8 +1,13 @@
 #!/bin/bash
-# usage: tryseed.sh <seed-dir-with-patch.diff> <prop> [more props...]  -- applies the patch to /repo, runs the checks, reverts.
+# usage: tryseed.sh <seed-dir-with-patch.diff> <prop> [more props...]  -- applies the patch to a scratch copy of /repo
+# (never to /repo itself), runs the checks on the copy, removes it.
 d=$1; shift
-git -C /repo apply $d/patch.diff || { echo "patch does not apply"; exit 1; }
+MPS=${MPS:-/verif/bin/mpscheck}
+export GOFLAGS=-mod=mod GOPROXY=off GOSUMDB=off GOTOOLCHAIN=local; unset GOWORK
+s=/tmp/tryseed-$$; rm -rf $s; mkdir -p $s
+rsync -a --exclude .git /repo/ $s/
+(cd $s && git apply $d/patch.diff 2>/dev/null || patch -p1 -s < $d/patch.diff) || { echo "patch does not apply"; rm -rf $s; exit 1; }
 for p in "$@"; do
-  /verif/bin/mpscheck -p $p -noevidence 2>&1 | grep -E '^FAIL' | cut -c1-400 || true
+  $MPS -p $p -noevidence -verif /verif -repo $s 2>&1 | grep -E '^(FAIL|LOAD-FAILED)' | grep -v 'OB-B3\|OB-U2' | cut -c1-400 || true
 done
-git -C /repo checkout -- .
+rm -rf $s
